@@ -108,6 +108,9 @@ func zzC05Compact(spec string) {
 		_, was := g.Tasks[k]
 		zzAssert(was, "C05/compact: no item appears")
 	}
+	if zzI4Holds(g) {
+		zzAssert(zzI4Holds(g2), "C14/compact: after compaction every task's epic reference still names a live epic")
+	}
 	for k := range g.Tombstones {
 		_, back := g2.Tasks[k]
 		zzAssert(!back, "C05/compact: pruned ids stay absent")
